@@ -37,12 +37,12 @@ def main() -> int:
             rp = json.load(open(args.replay))
             print(f"[{pid}] replaying {args.replay}: {rp.get('what', '')[:300]}")
             ctx = Ctx(pid, MODULES[pid], rp.get("tier", args.tier), int(rp.get("seed", seed)))
-            rc = mod.main(ctx)
+            rc = run_main(mod, ctx)
             same = os.path.exists(args.replay) and rc == 1
             print(f"[{pid}] replay {'REPRODUCED a violation' if same else 'did not reproduce (tree changed or fixed)'}")
             return rc
         ctx = Ctx(pid, MODULES[pid], args.tier, seed)
-        return mod.main(ctx)
+        return run_main(mod, ctx)
     except InfraError as e:
         print(f"[{pid}] INFRASTRUCTURE FAILURE: {e}", file=sys.stderr)
         return 2
@@ -50,6 +50,20 @@ def main() -> int:
         traceback.print_exc()
         print(f"[{pid}] INFRASTRUCTURE FAILURE (unexpected exception in the harness)", file=sys.stderr)
         return 2
+
+
+def run_main(mod, ctx) -> int:
+    from agg_common import NonFinite
+    if True:
+        try:
+            return mod.main(ctx)
+        except NonFinite as e:
+            # every input the checks build is finite and within the range the property speaks about, so a nan/inf
+            # coming back from the implementation is a violation (with the last registered case as the replay)
+            ctx.violation(f"the implementation returned {e} where the property requires a finite result; last case: "
+                          f"{str(getattr(ctx, 'last_case', None))[:500]}", {"last_case": getattr(ctx, "last_case", None)})
+            from common import TRUSTED_COMMON
+            return ctx.finish(rule="(run aborted at the first non-finite output; see the violation)", trusted=TRUSTED_COMMON)
 
 
 if __name__ == "__main__":
